@@ -339,6 +339,49 @@ func Flags(probe bool) ([]Flag, error) {
 	return out, nil
 }
 
+// SharedLeaves asks the compiled code which leaves of DefaultConfig a Load overwrites: one real
+// Load with a file that sets every option to a non-default value, then DefaultConfig is compared
+// with its pristine copy. (The structural candidate - a non-nil pointer in DefaultConfig - is only
+// used to name the pointer.)
+func SharedLeaves(fs []Field) (map[string]bool, error) {
+	dir, err := os.MkdirTemp(os.Getenv("VERIF_WORK"), "c18shared")
+	if err != nil {
+		return nil, err
+	}
+	defer os.RemoveAll(dir)
+	var entries []pair
+	kinds := map[string]string{}
+	for _, f := range fs {
+		if f.YAML == "-" {
+			continue
+		}
+		pk := map[string]string{"string": "string", "bool": "bool", "int": "int", "uint": "uint64", "float": "float64", "duration": "duration"}[f.Kind]
+		if pk == "" {
+			continue
+		}
+		entries = append(entries, pair{f.YAML, probeValue(pk, f.Def)})
+		kinds[f.YAML] = f.Kind
+	}
+	_ = os.MkdirAll(filepath.Join(dir, config.AppConfigDir), 0o755)
+	if err := os.WriteFile(filepath.Join(dir, config.AppConfigDir, config.ConfigName), []byte(WriteYAML(entries, func(p string) string { return kinds[p] })), 0o644); err != nil {
+		return nil, err
+	}
+	RestoreDefaults()
+	defer RestoreDefaults()
+	if _, err := RealLoad(dir, nil); err != nil {
+		return nil, fmt.Errorf("probe Load: %w", err)
+	}
+	p := DeepCopy(pristine)
+	before, after := Snapshot(&p, fs), Snapshot(&config.DefaultConfig, fs)
+	out := map[string]bool{}
+	for i, f := range fs {
+		if before[i] != after[i] {
+			out[f.Go] = true
+		}
+	}
+	return out, nil
+}
+
 func probeValue(kind, def string) string {
 	switch kind {
 	case "bool":
